@@ -1436,6 +1436,10 @@ func (fr *Frame) execNext(st *State, i *ssa.Next) {
 	u.enc.fresh++
 	u.assumeG(st, implies(not(ok), fmt.Sprintf("(forall ((%s %s)) (! (=> (and (select %s %s) (select %s %s)) (select %s %s)) :pattern ((select %s %s)) :pattern ((select %s %s))))",
 		kk, ks, it.Dom0, kk, curDom, kk, vis, kk, curDom, kk, vis, kk)))
+	// extensionality instance (always true): pointwise equal sets are equal - lets cardinalities be compared after the loop
+	ke := "ke!" + fmt.Sprint(u.enc.fresh)
+	u.enc.fresh++
+	u.assumeG(st, implies(not(ok), implies(fmt.Sprintf("(forall ((%s %s)) (= (select %s %s) (select %s %s)))", ke, ks, vis, ke, curDom, ke), eq(vis, curDom))))
 	u.heapSet(st, it.Ghost, ite(ok, sto(vis, k, "true"), vis))
 	kv := Val{T: k, S: ks, Ty: mt.Key()} // (the tuple's component types are invalid for blank range variables)
 	vt := mt.Elem()
